@@ -264,8 +264,12 @@ def _get_matching_dir_entries(parent_dir, auth_set, st_mode_test=None, ext=""):
 
                 if type_pass:
                     results.append(filename)
+            except ValueError:
+                # (a filter value no directory entry can be named like, e.g.
+                # with a NUL character: nothing matches it)
+                pass
             except OSError as e:
-                if e.errno != errno.ENOENT:
+                if e.errno not in (errno.ENOENT, errno.ENAMETOOLONG):
                     raise
                 # else, file-not-found is ok, just skip
     else:  # auth_set is a blacklist
